@@ -181,12 +181,17 @@ def correspondence(ctx):
             infra.append("ubsan/function configuration does not build: " + log[-800:])
         # valgrind memcheck (uninitialised reads) on a sample, g++ -O2
         c = ("g++", "-O2", False)
-        if c in exes:
+        # (own build without the harness's malloc-based operator new/delete: valgrind replaces operator new itself and
+        #  would report the harness's free()-based operator delete as a mismatched free)
+        vg_exe, vg_log = build_cfg(c, extra_flags=("-g", "-DHARNESS_NO_NEW_OVERRIDE"), tag="m_valgrind")
+        if not vg_exe:
+            infra.append("valgrind configuration does not build: " + vg_log[-800:])
+        else:
             sample = list(range(0, min(len(progs), 120)))
             env = dict(os.environ)
 
             def vg(i):
-                r = subprocess.run(["valgrind", "-q", "--error-exitcode=77", "--track-origins=no", exes[c]],
+                r = subprocess.run(["valgrind", "-q", "--error-exitcode=77", "--track-origins=no", vg_exe],
                                    input=progs[i], stdout=subprocess.PIPE, stderr=subprocess.PIPE, text=True, timeout=600,
                                    errors="replace")
                 return i, r.returncode, r.stderr
